@@ -223,7 +223,8 @@ def main():
                  "findings (status known) and repaired defects (status fixed, regression cases). Every task also runs under a "
                  "seed-determined subset of ambient process-state perturbations (pbt/ambient.py: working directory, numpy "
                  "print/error state, decimal context, calls from fresh threads, gc pressure, import order, pyparsing global "
-                 "settings, module reload, subclassed private tables, legitimately rejected calls between the valid ones); "
+                 "settings, module reload, subclassed private tables, legitimately rejected calls between the valid ones, ageing of the "
+                 "process before early cases are re-judged, warnings as errors); "
                  "VERIF_AMBIENT=plain switches that off, a replay file records the subset it was found under.",
     }
     with open(os.path.join(HERE, "MANIFEST.json"), "w") as f:
